@@ -1,7 +1,7 @@
 # Batches that decide each property: (profile, flavour, runs in quick tier, runs in thorough tier).
 COMMON_ASSUMPTIONS = [
     "executions are sequentially consistent at hook/lock granularity: compiler/CPU reorderings and preemption between two statements with no hook between them are not explored",
-    "only the PTHREAD build is simulated; the OpenMP variant shares all code except the pragmas in p?gstrf.c, pxgstrf_scheduler.c, pmemory.c, pxgstrf_synch.c",
+    "the PTHREAD build is simulated everywhere; the OpenMP build (-D__OPENMP -fopenmp, PLAT=_OPENMP) runs in the batches of flavour 'omp', where the five libgomp entry points the library uses (GOMP_parallel, GOMP_critical_name_start/end, omp_get_thread_num/num_threads) are provided by the simulator: the team is made of simulated tasks, each named critical section is a simulated mutex; libgomp itself is not linked. Solaris, DEC, SGI, Cray variants are not simulated",
     "built-in BLAS kernels (CBLAS/ and ?myblas2.c from the repository) except in the batches of flavour 'vblas' (-DUSE_VENDOR_BLAS, system OpenBLAS forced to one thread; OpenBLAS itself is trusted)",
     "32-bit indices except in the batches of flavour 'long' (-D_LONGINT) listed under coverage.seeds",
     "seeded sampling, not enumeration: a clean batch is evidence, not proof",
@@ -9,7 +9,7 @@ COMMON_ASSUMPTIONS = [
 ]
 COMPONENTS = {
     "real_code": ["every SRC/*.c except sp_ienv.c (all four precisions)", "CBLAS/*.c"],
-    "simulated": ["pthread_create/join/mutex_* (link-time wrappers; seeded scheduler decides who runs)", "malloc/calloc/realloc/free (accounting + failure plan)",
+    "simulated": ["pthread_create/join/mutex_* (link-time wrappers; seeded scheduler decides who runs)", "flavour omp: GOMP_parallel, GOMP_critical_name_start/end, omp_get_thread_num, omp_get_num_threads (defined by the simulator instead of libgomp; team size seeded: nprocs, fewer, or more)", "malloc/calloc/realloc/free (accounting + failure plan)",
                   "exit() (abort path interception)", "sp_ienv() (tuning parameters per run)", "SuperLU_DYNAMIC_SNODE_STORE (environment, per run)"],
     "stubbed": [],
 }
@@ -26,16 +26,16 @@ FOREST_RULE = '; the `forest` batch is an enumerating profile: configuration (se
 
 CHECKS = {
  'C01': dict(seed_offset=1, level='exploration', rule=RULE_A, props=['C01'],
-             batches=[dict(profile='ssv', flavour='plain', quick=60000, thorough=3000000), dict(profile='ssv', flavour='asan', quick=4000, thorough=150000), dict(profile='ssv', flavour='long', quick=8000, thorough=400000), dict(profile='ssv', flavour='vblas', quick=8000, thorough=400000)],
+             batches=[dict(profile='ssv', flavour='plain', quick=60000, thorough=3000000), dict(profile='ssv', flavour='asan', quick=4000, thorough=150000), dict(profile='ssv', flavour='long', quick=8000, thorough=400000), dict(profile='ssv', flavour='vblas', quick=8000, thorough=400000), dict(profile='ssv', flavour='omp', quick=10000, thorough=500000)],
              must_probe=['solves_checked', 'spin_blocks', 'numbering_ne_storage_order', 'nprocs_gt_n']),
  'C02': dict(seed_offset=2, level='exploration', rule=RULE_A + TINY_RULE, props=['C02'],
-             batches=[dict(profile='strf', flavour='plain', quick=60000, thorough=3000000), dict(profile='strf', flavour='asan', quick=4000, thorough=150000), dict(profile='strf', flavour='long', quick=8000, thorough=400000), dict(profile='strf', flavour='vblas', quick=8000, thorough=400000), dict(profile='tiny', flavour='plain', quick=530 * 8, thorough=66066 * 32, S=8, S_thorough=32)],
+             batches=[dict(profile='strf', flavour='plain', quick=60000, thorough=3000000), dict(profile='strf', flavour='asan', quick=4000, thorough=150000), dict(profile='strf', flavour='long', quick=8000, thorough=400000), dict(profile='strf', flavour='vblas', quick=8000, thorough=400000), dict(profile='strf', flavour='omp', quick=10000, thorough=500000), dict(profile='tiny', flavour='plain', quick=530 * 8, thorough=66066 * 32, S=8, S_thorough=32)],
              must_probe=['factorizations_checked', 'update_2d', 'supernode_spans_two_panels', 'panel_split_at_top', 'offdiag_pivots']),
  'C03': dict(seed_offset=3, level='exploration', rule=RULE_A + FOREST_RULE, props=['C03', 'C02'], also=['C05:fatal_signal*', 'C05:sanitizer*'],
-             batches=[dict(profile='pipe', flavour='plain', quick=60000, thorough=3000000), dict(profile='strf', flavour='plain', quick=20000, thorough=1000000), FOREST_BATCH],
+             batches=[dict(profile='pipe', flavour='plain', quick=60000, thorough=3000000), dict(profile='strf', flavour='plain', quick=20000, thorough=1000000), FOREST_BATCH, dict(profile='pipe', flavour='omp', quick=20000, thorough=1000000)],
              must_probe=['pipeline_waits', 'busy_chain_ge3_panels', 'supernode_spans_two_panels', 'canpipe_panel_taken', 'row_interchanges', 'update_extents_checked', 'forest_etree_as_intended', 'forest_shapes_distinct']),
  'C04': dict(seed_offset=4, level='exploration', rule=RULE_A + FOREST_RULE + '; the `alloc` batch is C14\'s enumeration of failed allocator requests and caller-workspace sizes: after every such fault the routine must still return or end through the abort path with no thread left', props=['C04'], also=['C05:fatal_signal*', 'C05:sanitizer*'],
-             batches=[dict(profile='term', flavour='plain', quick=60000, thorough=3000000), dict(profile='pipe', flavour='plain', quick=20000, thorough=1000000), FOREST_BATCH,
+             batches=[dict(profile='term', flavour='plain', quick=60000, thorough=3000000), dict(profile='pipe', flavour='plain', quick=20000, thorough=1000000), FOREST_BATCH, dict(profile='term', flavour='omp', quick=20000, thorough=1000000),
                       dict(profile='alloc', flavour='plain', quick=128 * 24, thorough=1024 * 100, S=128, S_thorough=1024)],
              must_probe=['nprocs_gt_n', 'idle_polls', 'forest_etree_as_intended', 'forest_shapes_distinct', 'abort_under_fault', 'returned_info_gt_n']),
  'C05': dict(seed_offset=5, level='exploration', rule=RULE_A + TINY_RULE, props=['C05'],
@@ -56,17 +56,17 @@ CHECKS = {
  'C13': dict(seed_offset=13, level='exploration', rule=RULE_A, props=['C13'],
              batches=[dict(profile='svx', flavour='plain', quick=40000, thorough=2000000)],
              must_probe=['svx_berr_checked', 'svx_berr_small_checked', 'svx_ferr_checked']),
- 'C08': dict(seed_offset=8, level='exploration', rule=RULE_A + "; a case here is a history of 2..8 operations over one sparsity pattern (first factorization, refactorizations with new values and optional pivot reuse, solves with existing factors, destroy + first factorization again), nprocs/strategy/schedule drawn anew per operation",
+ 'C08': dict(seed_offset=8, level='exploration', rule=RULE_A + "; a case here is a history of 2..8 operations over one sparsity pattern (first factorization, refactorizations with new values and optional pivot reuse, solves with existing factors, destroy + first factorization again), nprocs/strategy/schedule drawn anew per operation; a fifth of the histories starts from an exactly singular first factorization (zero column, zero row or two equal columns; info in 1..n with factors and perm_r handed back) made by 2..4 threads, mostly with one of them held back, and then refactorizes nonsingular values, mostly with pivot reuse at u = 0 or 0.01",
              props=['C08', 'C01', 'C02', 'C09', 'C07'],
-             batches=[dict(profile='hist', flavour='plain', quick=25000, thorough=1500000), dict(profile='hist', flavour='asan', quick=2500, thorough=100000), dict(profile='hist', flavour='long', quick=4000, thorough=200000)],
-             must_probe=['refactorizations', 'factored_calls', 'factor_reuse_solves_checked', 'usepr_all_old_pivots_pass', 'usepr_old_pivot_fails', 'user_workspace_calls']),
+             batches=[dict(profile='hist', flavour='plain', quick=25000, thorough=1500000), dict(profile='hist', flavour='asan', quick=2500, thorough=100000), dict(profile='hist', flavour='long', quick=4000, thorough=200000), dict(profile='hist', flavour='omp', quick=4000, thorough=200000)],
+             must_probe=['refactorizations', 'factored_calls', 'factor_reuse_solves_checked', 'usepr_all_old_pivots_pass', 'usepr_old_pivot_fails', 'user_workspace_calls', 'refactorizations_after_singular_factorization', 'pivot_reuse_after_singular_factorization']),
  'C14': dict(seed_offset=14, level='fault_enumeration',
              rule=("enumerating profile: configuration = seed div 128 (pattern, values, precision, driver, nprocs 1..4, tunables); item = seed mod 128: 0 fault-free baseline (counts the K allocator "
                    "requests of the driver call), 1 workspace query, 2 sufficient caller workspace, then for k = 1..48 (and a seeded sample of larger k) 'fail request k and all later ones' and 'fail only request k', "
                    "then caller-workspace sizes at cumulative boundaries of a sufficient run +- one word (always including the peak) and seeded sizes; thorough tier: 1024 items per configuration, i.e. every k. "
                    "A case is non-trivial if it has >= 2 worker threads, >= 2 columns and a scheduling decision; distinct = distinct (H_sched, H_obs)"),
              props=['C14', 'C01', 'C02', 'C07', 'C09', 'C05', 'C04', 'C12', 'C13', 'C17'],
-             batches=[dict(profile='alloc', flavour='plain', quick=128 * 60, thorough=1024 * 400, S=128, S_thorough=1024), dict(profile='alloc', flavour='asan', quick=128 * 12, thorough=1024 * 40, S=128, S_thorough=1024)],
+             batches=[dict(profile='alloc', flavour='plain', quick=128 * 60, thorough=1024 * 400, S=128, S_thorough=1024), dict(profile='alloc', flavour='asan', quick=128 * 12, thorough=1024 * 40, S=128, S_thorough=1024), dict(profile='alloc', flavour='omp', quick=128 * 12, thorough=1024 * 40, S=128, S_thorough=1024)],
              must_probe=['alloc_mode_3', 'alloc_mode_4', 'alloc_mode_5', 'workspace_queries', 'abort_under_fault', 'returned_info_gt_n', 'workspace_size_sufficient_after_all', 'user_workspace_calls', 'alloc_returns_leak_checked'],
              assumptions=["a call that returns info = 0 after an injected failure is accepted only if its result passes the full oracles (counted as succeeded_despite_failed_request)",
                           "allocator requests are counted inside the driver call only (orderings computed by get_perm_c before the call are outside the armed window)"]),
